@@ -30,7 +30,8 @@ def app_str(e):
     env = sorted(e["env"].items())
     ck = sorted(e["cookies"].items())
     cookies = ",".join(hxd(k) + ":" + ":".join(hxd(x) for x in (list(v) + [b"", b"", b""])[:3]) for k, v in ck) if ck else "-"
-    return (f"app kind={e['meta'].get('kind')} env={pairs_str(env)} get={pairs_str(e['get'])} post={pairs_str(e['post'])} "
+    names = sorted(e["names"].items())
+    return (f"app kind={e['meta'].get('kind')} env={pairs_str(env)} names={pairs_str(names)} get={pairs_str(e['get'])} post={pairs_str(e['post'])} "
             f"cookies={cookies} body={hxd(e['body'] or b'')}")
 
 
